@@ -40,7 +40,7 @@ def run_timeline(rec, case):
     rng = gen.mkrng('c07', case['seed'], case['i'])
     srv = rng.choice(['T', 'A'])
     if srv == 'A' and case.get('aio'):
-        srv = case['aio']    # asyncio server behind the aiohttp adapter
+        srv = case['aio']    # asyncio server behind the aiohttp / tornado adapter
         rec.count('histories_on_aiohttp_adapter')
     pi = rng.choice(PIS)
     pt = rng.choice(PTS)
@@ -363,6 +363,8 @@ def run_shard(spec):
              for k in range(spec['n'])]
     for c in cases[::2]:
         c['aio'] = 'H'
+    for c in cases[2::4]:
+        c['aio'] = 'N'     # ... and behind the tornado adapter
     for case in cases:
         scen.run_cases(rec, [case], run_timeline)
         if rec._vkeys.get('runaway-heartbeat-activity', 0) >= 2 or \
